@@ -14,10 +14,13 @@ allows exactly one outcome: the call raises.  Observed outcomes:
 OBLIGATIONS (name — witness keys)
   rt/walk/error_reported, rt/visit_leaves/error_reported, rt/transform/error_reported,
   rt/multi_tan/error_reported, rt/multi_wcs/error_reported
-      — stage, parallel, fail ({pos:[n,x,y]} | {image:k}), outcome, watchdog_s, fault_fired,
-        delay + the stage's input keys (kind, depth, accept, apex, coordsys | depth, present |
+      — stage, parallel, fail ({pos:[n,x,y]} | {image:k} | {input:k}), outcome, watchdog_s, fault_fired,
+        [progress: true], delay + the stage's input keys (kind, depth, accept, apex, coordsys | depth, present |
         pieces, bottom_up, mosaic, seed)
   (parallel == 1 is the serial mode; there the injected exception itself must reach the caller.)
+  fail.input = k: the file of input image k of a multi-image tiling has been removed when tile() starts (unreadable input).
+  progress = true: the stage ran with cli_progress=True and JPY_PARENT_PID=1 in the environment (terminal-like output for
+  toasty.progress; the bar itself is written to /dev/null) -- the property does not depend on the progress display.
   fail.exc names the class of the injected exception (absent: the harness's own Exception subclass); see rt.c03.EXC_CLASSES.
 
 BOUNDS
@@ -28,11 +31,14 @@ BOUNDS
             workers {1,2,3}.  Exception classes: the fault raised as RuntimeError, KeyError, ValueError,
             OSError(ENOSPC), FileNotFoundError, PermissionError, queue.Empty, queue.Full, ZeroDivisionError,
             EOFError, BrokenPipeError, TimeoutError, AssertionError (beside the custom Exception subclass) in
-            EVERY stage, serially and with 2 or 3 workers.  Watchdog 20 s (multi_wcs 45 s).
+            EVERY stage, serially and with 2 or 3 workers.  ~35 of these cases once more with the progress bar on
+            terminal-like output (every stage, serial and parallel); unreadable input image of multi_tan / multi_wcs with
+            and without the bar.  Watchdog 20 s (multi_wcs 45 s).
   thorough: fault at EVERY single item of: walk generic depth 2 (workers 1,2,3,5), filtered depth 3
             (1,2,3); visit generic depth 2 (1,2,3); transform depth 1 (1,2,3) and depth 2 (1,2);
             multi_tan 4 inputs (1,2,3); multi_wcs 3 inputs (1,2,3); every exception class x two fault
-            positions x workers (1,2,3) in every stage.  Watchdog 40 s (60 s).
+            positions x workers (1,2,3) in every stage; every single-fault case once more under the progress bar;
+            each input of multi_tan unreadable.  Watchdog 40 s (60 s).
 
 TRUSTED: watchdog expiry stands for non-termination; multiprocessing start method is fork.
 """
@@ -69,6 +75,8 @@ def witness_of(case, outcome, watchdog, fired):
     w.pop("sched", None)
     w.pop("schedule", None)
     w.update(fail=case["fail"], outcome=outcome, watchdog_s=watchdog, fault_fired=fired)
+    if case.get("progress"):
+        w["progress"] = True
     return w
 
 
@@ -224,6 +232,73 @@ def build_cases(rng, thorough):
                   "visit_leaves, transform, multi_tan, multi_wcs: %s; %d cases" % (
                       ", ".join(classes), "two fault positions x workers 1,2,3" if thorough else
                       "serially and with 2 or 3 workers (multi_wcs: 2 workers, serially every fourth class)", n_cls))
+    # ---- the same single faults with the progress bar shown on terminal-like output: every stage runs its loop -- serial
+    # and parallel -- inside ``with progress_bar(total, show=cli_progress)``; "fails visibly to its caller" does not depend on
+    # cli_progress nor on where the bar is drawn.  progress=True: cli_progress=True and JPY_PARENT_PID set (what a Jupyter
+    # kernel / an interactive terminal gives; rt.c03._guarded).  Plus the fault "an input image cannot be read" of the
+    # multi-image stages (fail = {"input": k}: the file of input k is gone when tile() starts), with and without the bar.
+    def prog(c, **kw):
+        c = dict(c, progress=True)
+        c.update(kw)
+        if c.get("delay"):
+            c["delay"] = dl()
+        return c
+
+    base_cases = list(cases)
+    base_long = list(long_cases)
+    n_prog = 0
+    if thorough:
+        for c in base_cases:
+            if "exc" not in c["fail"]:
+                cases.append(prog(c))
+                n_prog += 1
+        for c in base_long:
+            if "exc" not in c["fail"]:
+                long_cases.append(prog(c))
+                n_prog += 1
+    else:
+        picks = [_shape_case("walk", "g", 2, [], None, w, p, dl()) for w in (1, 2) for p in picks2]
+        picks += [_shape_case("walk", "f", 3, acc3, None, 1, p, dl()) for p in deep[:1]]
+        picks += [_shape_case("visit", "g", 2, [], None, w, p, dl()) for w in W for p in [(2, 0, 0), (2, 3, 3)]]
+        picks += [_shape_case("visit", "t", 3, [], None, w, (3, 5, 2), dl()) for w in (1, 2)]
+        picks += [tcase(2, w, p) for w in (1, 2) for p in [(2, 0, 0), (0, 0, 0)]] + [tcase(2, 3, (1, 1, 1))]
+        picks += [mcase(w, p) for w in W for p in [four_tiles[0], four_tiles[3]]]
+        for c in picks:
+            cases.append(prog(c))
+            n_prog += 1
+        for w in (1, 2):
+            long_cases.append(prog({"stage": "multi_wcs", "pieces": pcs, "seed": 3, "parallel": w, "delay": None, "schedule": "os", "sched": None,
+                                    "fail": {"image": len(pcs) - 1}}))
+            n_prog += 1
+        for k, exc in enumerate(classes[:6]):        # a few classes once more under the bar, serially and in parallel
+            st = ("walk", "visit", "transform", "multi_tan")[k % 4]
+            c = prog(templates[st][0], parallel=1 + k % 2)
+            c["fail"] = dict(templates[st][0]["fail"], exc=exc)
+            cases.append(c)
+            n_prog += 1
+    n_inp = 0
+    for bar in (False, True):
+        for w in W:
+            for k in ((0, 1, 2, 3) if thorough else (0, 3)):
+                c = mcase(w, four_tiles[0])
+                c["fail"] = {"input": k}
+                c["progress"] = bar
+                cases.append(c)
+                n_inp += 1
+        for w in ((1, 2, 3) if thorough else (1, 2)):
+            if not thorough and not bar and w == 1:
+                continue
+            long_cases.append({"stage": "multi_wcs", "pieces": pcs, "seed": 3, "parallel": w, "delay": None, "schedule": "os", "sched": None,
+                               "fail": {"input": len(pcs) - 1}, "progress": bar})
+            n_inp += 1
+    bounds.append("progress bar on terminal-like output (cli_progress=True, JPY_PARENT_PID=1; bar sent to /dev/null): %d cases -- %s"
+                  % (n_prog, "every single-fault case above once more under the bar" if thorough else
+                     "walk (generic depth 2: level-1 tile and apex, workers 1,2; filtered depth 3, serial), visit_leaves (16 leaves: first / "
+                     "last leaf, workers 1,2,3; 64 leaves, workers 1,2), transform (first tile and (0,0,0), workers 1,2; a level-1 tile, 3), "
+                     "multi_tan (first / last tile, workers 1,2,3), multi_wcs (last input, workers 1,2), six exception classes"))
+    bounds.append("unreadable input image (file of input k removed before tile()): multi_tan 4 inputs, %s, workers 1,2,3; multi_wcs last input, "
+                  "workers %s; each without and with the progress bar: %d cases" % ("each input" if thorough else "first / last input",
+                                                                                   "1,2,3" if thorough else "1 (bar only), 2", n_inp))
     for i, c in enumerate(long_cases + cases):
         c["id"] = i
     return long_cases, cases, bounds
@@ -289,6 +364,8 @@ def replay(obligation, witness):
     w.setdefault("sched", None)
     case = S.case_from_witness(w)
     case["fail"] = witness["fail"]
+    if witness.get("progress"):
+        case["progress"] = True
     case["id"] = 0
     work = tempfile.mkdtemp(prefix="c19_replay_")
     try:
